@@ -317,6 +317,8 @@ func checkResetSpec(p *Prog, r *Result, pkg *packages.Package, spec resetSpec) {
 						how = "points at a field of the receiver"
 					case strings.HasPrefix(s, "!"):
 						how = "derived from configuration (" + s + ")"
+					case stateFreeExpr(info, rhs):
+						how = "a fresh value built without reading any state (" + s + ")"
 					default:
 						how = "expression " + s
 					}
@@ -793,4 +795,41 @@ var c08Controls = []Control{
 		Mutate: ctlReplace("Parser.StmtsSeq", "if p.err == nil {\n\t\t\t// EOF immediately after heredoc word so no newline to\n\t\t\t// trigger the parsing error.\n\t\t\tp.doHeredocs()\n\t\t}", "", 0)},
 	{Name: "openNodes-early-return", Rule: "R08d", WantKey: "wordParts#openNodes++", File: "syntax/parser.go",
 		Mutate: ctlReplace("Parser.wordParts", "p.openNodes--", "if n == nil && len(wps) == 0 {\n\t\t\treturn nil\n\t\t}\n\t\tp.openNodes--", 0)},
+}
+
+// stateFreeExpr reports whether e is built from literals, composite literals, conversions and make/new alone: it names
+// no variable at all, so it cannot depend on an earlier use of the receiver.
+func stateFreeExpr(info *types.Info, e ast.Expr) bool {
+	ok := true
+	ast.Inspect(e, func(n ast.Node) bool {
+		switch n := n.(type) {
+		case *ast.Ident:
+			switch o := info.ObjectOf(n).(type) {
+			case *types.Var:
+				if !o.IsField() { // field names appear as keys of composite literals
+					ok = false
+				}
+			case *types.Func:
+				ok = false
+			}
+		case *ast.SelectorExpr:
+			if _, isVar := info.ObjectOf(n.Sel).(*types.Var); isVar { // a field read or a package-level variable
+				ok = false
+			}
+		case *ast.CallExpr:
+			if tv, has := info.Types[n.Fun]; has && tv.IsType() {
+				return true
+			}
+			if id, isID := ast.Unparen(n.Fun).(*ast.Ident); isID {
+				if b, isB := info.ObjectOf(id).(*types.Builtin); isB && (b.Name() == "make" || b.Name() == "new") {
+					return true
+				}
+			}
+			ok = false
+		case *ast.FuncLit:
+			ok = false
+		}
+		return ok
+	})
+	return ok
 }
